@@ -10,7 +10,11 @@ func init() {
 		ID: "C13", Level: "exploration", Floor: 200,
 		Rule: "monitor 1: a schedule = (k requests of kinds ∈ {v4, v6, dual}, m reloads, one order of the events {release request i from the yield point between the two address selections, start reload j}); " +
 			"after each event the driver waits (stack scan) until the goroutine it touched is done or blocked in a synchronisation wait; every order is enumerated for k ≤ 2 (quick) / 3 (thorough), m ≤ 2; " +
-			"monitor 2: free-running stress (8 requesters × 2 reloaders) under the race detector. Oracles: every request and reload completes (a stable all-blocked state = deadlock), every response lies wholly in subnet set A or wholly in B. " +
+			"each reload reads a valid file or a missing / truncated one (which must change nothing), and after every schedule one fresh request of each kind must be answered from a set a valid reload published; " +
+			"monitor 2: free-running stress (8 requesters × 2 reloaders, blocks of serialised reloads that mix in missing / truncated files) under the race detector; " +
+			"monitor 3: the registrar's real main() in-process with its SIGHUP loop; the subnet file is a FIFO (a fresh one per reload), so the harness knows when a reload has begun and decides when it ends: SIGHUPs are sent before and *during* a running reload while API requests run throughout; " +
+			"a SIGHUP sent during a reload must be followed by another reload (loss is declared only when the signal goroutine and os/signal's loop are idle on 40 consecutive stack scans and nothing began, re-confirmed after 3 s), and once quiet, requests must be answered from the set published last. " +
+			"Oracles: every request and reload completes (a stable all-blocked state = deadlock), no request panics, every response lies wholly in one published subnet set. " +
 			"distinct_nontrivial = distinct schedules executed + distinct (kind, set) outcomes seen under stress",
 		Assumptions: []string{
 			"interleavings are enumerated at the granularity of the verifhook.Yield point between the two selections plus lock-wait states; finer interleavings are left to the free-running stress stage and the race detector",
@@ -20,6 +24,7 @@ func init() {
 			{Name: "schedules", Pkg: "./pkg/regserver/regprocessor", Run: "^TestVerifC13Schedules$", Drivers: []string{"regproc"}, HangIsViol: true, TimeoutQ: 10 * time.Minute, TimeoutT: 40 * time.Minute},
 			{Name: "stress", Pkg: "./pkg/regserver/regprocessor", Run: "^TestVerifC13Stress$", Drivers: []string{"regproc"}, Race: true, HangIsViol: true, TimeoutQ: 10 * time.Minute, TimeoutT: 40 * time.Minute,
 				RaceFilter: func(r RaceReport) bool { return r.Has("regprocessor.") && !strings.Contains(r.Key(), "?|?") }},
+			{Name: "sighup", Dir: "cmd/registration-server", Pkg: ".", Run: "^TestVerifC13Sighup$", Drivers: []string{"regserver"}, Netns: true, HangIsViol: true, TimeoutQ: 10 * time.Minute, TimeoutT: 40 * time.Minute},
 		},
 	})
 }
